@@ -266,6 +266,7 @@ func specGfpow(t T, p int) T {
 //@   global logExpOK
 //@   pure
 //@   ensures result == specGfpow(t, int(p))
+//@   replay-requires p <= 3000000
 //@   uses powPow3(int(logTable[t-1]), int(p))
 //@   uses powZero(int(p))
 //@   uses powExpZero(t)
